@@ -227,7 +227,7 @@ make_pair(void)
 static enum sx_what
 looking_at(const char *s, const size_t n, const size_t i)
 {
-    if ((n > i + 1) && s[i] == '#' && s[i+1] == 'x' && isxdigit((int)s[i+2])) {
+    if ((n > i + 2) && s[i] == '#' && s[i+1] == 'x' && isxdigit((int)s[i+2])) {
         return LOOKING_AT_INT_HEX;
     }
     if (s[i] == '(') {
